@@ -299,7 +299,7 @@ def run(ctx: Ctx) -> None:
         "parameters have no defaults (under DOCSTRING preference defaults come from the docstring by design)",
         "warning messages name the function, not the parameter: the multiset of messages is compared",
     ]
-    failures = engine.search(ctx, MOD, shards=ctx.n(16, 96), examples=ctx.n(3, 12))
+    failures = engine.search(ctx, MOD, shards=ctx.n(16, 96), examples=ctx.n(6, 12))
     engine.report_failures(ctx, MOD, failures)
     engine.replay_known(ctx, MOD)
 
